@@ -135,6 +135,9 @@ func classifyBlockingCall(in ssa.Instruction, c *ssa.CallCommon) (blockOp, bool)
 		return blockOp{at: in, kind: "sleep", desc: "time.Sleep"}, true
 	case "sync.WaitGroup.Wait":
 		return blockOp{at: in, kind: "wait", desc: "WaitGroup.Wait"}, true
+	case "sync.Cond.Wait":
+		// waits for another goroutine's Signal/Broadcast; knows nothing about any context
+		return blockOp{at: in, kind: "wait", desc: "sync.Cond.Wait"}, true
 	}
 	return blockOp{}, false
 }
